@@ -48,3 +48,34 @@ fire("C65", "starmap-sorted-args",
      "R-C65-consume", "PyNativeExec.starmap")
 silent("C65", "map-len-of-args-tuple",
        [(API, "        fn_p = partial(fn, **kwargs)\n        if self._cfg.map_unpack", "        fn_p = partial(fn, **kwargs)\n        _n = len(args)\n        if self._cfg.map_unpack")])
+
+# --- R-C65-return / R-C65-lifecycle
+_API = "pennylane/concurrency/executors/native/api.py"
+_BASE = "pennylane/concurrency/executors/base.py"
+fire("C65", "submit-duck-types-the-users-return-value",
+     (_API, "        if self._cfg.blocking:\n            return output\n        return output.result()",
+            "        if hasattr(output, \"result\"):\n            return output.result()\n        return output"),
+     "R-C65-return", "PyNativeExec.submit")
+fire("C65", "submit-returns-future-unresolved",
+     (_API, "        if self._cfg.blocking:\n            return output\n        return output.result()", "        return output"),
+     "R-C65-return", "PyNativeExec.submit")
+fire("C65", "submit-blocking-flag-inverted",
+     (_API, "        if self._cfg.blocking:\n            return output\n        return output.result()",
+            "        if not self._cfg.blocking:\n            return output\n        return output.result()"),
+     "R-C65-return", "PyNativeExec.submit")
+fire("C65", "map-returns-early-on-falsy-output",
+     (_API, "        return list(output)\n\n    def starmap", "        if not output:\n            return []\n        return list(output)\n\n    def starmap"),
+     "R-C65-return", "PyNativeExec.map")
+fire("C65", "shutdown-leaves-persist-flag-set",
+     (_API, "            self._persistent_backend = None\n            self._persist = False", "            self._persistent_backend = None"),
+     "R-C65-lifecycle", "PyNativeExec.shutdown")
+fire("C65", "get_backend-returns-persistent-backend-unconditionally",
+     (_BASE, "        if self._persist:\n            return self._persistent_backend\n        return self._exec_backend()(self._size)",
+             "        return self._persistent_backend"),
+     "R-C65-lifecycle", "_get_backend")
+silent("C65", "shutdown-clears-flag-first",
+       [(_API, "            self._shutdown_fn(self._persistent_backend)()\n            self._persistent_backend = None\n            self._persist = False",
+               "            self._persist = False\n            self._shutdown_fn(self._persistent_backend)()\n            self._persistent_backend = None")])
+silent("C65", "submit-else-form",
+       [(_API, "        if self._cfg.blocking:\n            return output\n        return output.result()",
+               "        if self._cfg.blocking:\n            return output\n        else:\n            return output.result()")])
